@@ -371,3 +371,56 @@ Definition w_dyn : list tok :=
 Lemma by_name_variable_sees_callee_parameter :
   run false w_cp [] w_dyn = Ok (Some (XV (VAmt (mkAmt 10 0 false None)))).
 Proof. vm_compute. reflexivity. Qed.
+
+(* ------------------------------------------------------------------ parameters shadow *)
+
+Section Shadowing.
+Variable ord : bool.
+Variable cp : comm -> Z.
+
+Lemma in_names_app s a b : in_names s (a ++ b) = in_names s a || in_names s b.
+Proof. unfold in_names. apply existsb_app. Qed.
+
+(* compiling a lambda: its body sees its own parameters AND those of the enclosing lambdas *)
+Lemma compile_lambda_eq n tbl ps l body :
+  compile ord cp (S n) tbl ps (OBin KLambda l (Some body)) =
+  do names <- param_names n (Some l);
+  do c <- compile ord cp n tbl (names ++ ps) body;
+  if c_changed c then Ok (mkC (OBin KLambda l (Some (c_op c))) true (c_tbl c))
+  else Ok (mkC (OBin KLambda l (Some body)) false (c_tbl c)).
+Proof. reflexivity. Qed.
+
+(* a name that is a parameter of this or of an enclosing lambda compiles to a parameter
+   reference, whatever variable, function or built-in of that name the table holds *)
+Lemma param_reference_compiles n tbl names ps s :
+  in_names s names || in_names s ps = true ->
+  compile ord cp (S n) tbl (names ++ ps) (OIdent s None) = Ok (mkC (OIdent s (Some OPlug)) true tbl).
+Proof. intros H. apply compile_ident_param. rewrite in_names_app. exact H. Qed.
+
+Lemma lookup_app {A} s (f1 f2 : list (str * A)) :
+  lookup s (f1 ++ f2) = match lookup s f1 with Some x => Some x | None => lookup s f2 end.
+Proof.
+  induction f1 as [|[k x] f1 IH]; [reflexivity|]. cbn [lookup app].
+  destruct (str_eqb k s); [reflexivity|exact IH].
+Qed.
+
+(* at run time a parameter reference is the innermost binding of the name among the argument
+   frames, whatever the outer frames and the symbol table hold *)
+Lemma param_reference_innermost n tbl inner outer s x :
+  lookup s inner = Some x ->
+  calc ord cp (S n) tbl (inner ++ outer) (OIdent s (Some OPlug)) = Ok x.
+Proof. intros H. cbn [Expr.calc]. rewrite lookup_app, H. reflexivity. Qed.
+
+Lemma param_reference_outer n tbl inner outer s x :
+  lookup s inner = None -> lookup s outer = Some x ->
+  calc ord cp (S n) tbl (inner ++ outer) (OIdent s (Some OPlug)) = Ok x.
+Proof. intros H H2. cbn [Expr.calc]. rewrite lookup_app, H, H2. reflexivity. Qed.
+
+End Shadowing.
+
+Definition w_vx : str := [118; 120]. Definition w_vy : str := [118; 121]. Definition w_fn : str := [102; 110].
+Definition w_shadow : list tok :=
+  [TIdent w_vx; TAssign; TVal (w_num 10); TSemi;
+   TIdent w_fn; TAssign; TLParen; TIdent w_vx; TArrow; TLParen; TIdent w_vy; TArrow; TIdent w_vx; TPlus; TIdent w_vy; TRParen;
+     TLParen; TVal (w_num 1); TRParen; TRParen; TSemi;
+   TIdent w_fn; TLParen; TVal (w_num 5); TRParen].
